@@ -26,6 +26,7 @@ ASSUMPTIONS = ["switches are forced only at opcode boundaries of frames under /r
                "re are assumed atomic under the GIL (CPython 3.12 GIL build)",
                "the constraint table is fixed (default) during a case"]
 SELFTESTS = [R.selftest, sched.selftest]
+EVAL_TIMEOUT = 600          # a cold / stress case may wait 45 s to tell stalled threads from slow ones
 
 _fresh = itertools.count(70001)
 _ring_size = [24]          # sizes below this have been requested in this process already
@@ -71,6 +72,16 @@ def _alone(kind, text, flags):
         return ("exc", type(e).__name__, str(e)[:200])
 
 
+def _alone_watched(kind, text, flags):
+    """like _alone, on a thread of its own that is watched for progress (sched.Stalled when it waits for ever)"""
+    try:
+        return ("ok", sched.run_watched(_job(kind, text, flags)))
+    except sched.Stalled:
+        raise
+    except Exception as e:  # noqa
+        return ("exc", type(e).__name__, str(e)[:200])
+
+
 def _norm(r, iso_from, iso_to):
     """rename the fresh isotope in a result so that runs on different fresh isotopes are comparable;
     exception messages quote the input and are reduced to the class"""
@@ -110,11 +121,23 @@ def evaluate(case):
     # no_before: the very first time this process sees these inputs is inside the interleaving (memo caches keyed by
     # the input or by something derived from it are then filled - and possibly still being worked on - concurrently)
     no_before = bool(case.get("no_before"))
-    before = [(None if ("ring_n" in j or no_before) else _alone(j["kind"], t, j.get("flags", {}))) for j, t in zip(jobs, texts(isoA))]
-    s = sched.Sched([_job(j["kind"], t, j.get("flags", {})) for j, t in zip(jobs, texts(isoB))], [tuple(x) for x in case["schedule"]])
-    conc = s.run()
-    after = [_alone(j["kind"], t, j.get("flags", {})) for j, t in zip(jobs, texts(isoC))]
     fail = None
+    phase = "before"
+    s = None
+    try:
+        before = [(None if ("ring_n" in j or no_before) else _alone_watched(j["kind"], t, j.get("flags", {}))) for j, t in zip(jobs, texts(isoA))]
+        phase = "concurrent"
+        s = sched.Sched([_job(j["kind"], t, j.get("flags", {})) for j, t in zip(jobs, texts(isoB))], [tuple(x) for x in case["schedule"]])
+        conc = s.run()
+        phase = "after"
+        after = [_alone_watched(j["kind"], t, j.get("flags", {})) for j, t in zip(jobs, texts(isoC))]
+    except sched.Stalled as e:
+        # calls that return within milliseconds alone wait for ever (no opcode executed for 30 s in any of them)
+        what = "calls_wait_for_each_other_for_ever" if phase == "concurrent" else "call_alone_waits_for_ever_%s_concurrent_calls" % phase
+        f = Fail("%s@%s" % (what, e.where), jobs=jobs[:4], schedule=case["schedule"][:40])
+        f.poisons_process = True      # whatever is being waited for stays taken: later cases in this process would wait too
+        return Result(f, True, ("stalled",),
+                      sample=dict(jobs=jobs, segments=len(case["schedule"])))
     for k, j in enumerate(jobs):
         if "ring_n" in j:
             want = ("ok", _ring_expected(j["ring_n"]))
@@ -163,56 +186,24 @@ def evaluate(case):
 
 
 def _stress(case):
-    jobs = case["jobs"]
-    nthreads = case["threads"]
-    calls = case["calls"]
-    iso = next(_fresh)
-    for _ in range(calls * nthreads // 50 + 2):
-        next(_fresh)
-    old = sys.getswitchinterval()
-    errors = []
-    expected = {}
-
-    def text_of(j, u):
-        return j["text"].replace("{u}", str(u))
-
-    def worker(tid):
-        try:
-            for c in range(calls):
-                j = jobs[(tid + c) % len(jobs)]
-                u = iso + (c // 50)          # all threads meet the same never-seen symbol at about the same time
-                t = text_of(j, u)
-                r = _norm(_alone(j["kind"], t, j.get("flags", {})), u, "U")
-                key = (tid + c) % len(jobs)
-                w = expected.get(key)
-                if w is None:
-                    expected.setdefault(key, r)
-                elif w != r:
-                    errors.append((j, w, r))
-                    return
-        except BaseException as e:  # noqa
-            errors.append((None, "worker crashed", repr(e)))
-    # serial expectations first (on an isotope of their own)
-    for k, j in enumerate(jobs):
-        u0 = next(_fresh)
-        expected[k] = _norm(_alone(j["kind"], text_of(j, u0), j.get("flags", {})), u0, "U")
-    sys.setswitchinterval(1e-6)
-    try:
-        ths = [threading.Thread(target=worker, args=(t,), daemon=True) for t in range(nthreads)]
-        for t in ths:
-            t.start()
-        for t in ths:
-            t.join(300)
-    finally:
-        sys.setswitchinterval(old)
-    fail = None
-    if errors:
-        j, w, r = errors[0]
-        fail = Fail("stress:concurrent_differs_from_serial", job=j, serial=str(w)[:300], concurrent=str(r)[:300])
-    return Result(fail, True, ("stress", "threads=%d" % nthreads), sample=dict(jobs=jobs[:3], threads=nthreads, calls=calls))
+    """free-running threads in an interpreter whose caches are warm (every job has run alone before the threads start);
+    {u} becomes a never-seen isotope that all threads meet at about the same time and that changes every 50 calls"""
+    jobs = [dict(j, text=j["text"].replace("{u}", "{w}")) for j in case["jobs"]]
+    rounds = max(1, case["calls"] // len(jobs))
+    return _cold(dict(kind="cold", jobs=jobs, threads=case["threads"], rounds=rounds, rotate=True, warm=True, w_every=50),
+                 classes=("stress",))
 
 
-def _cold(case):
+def _expand(j):
+    """{tower:D} in a job text is a tower of D nested branches (built here, not stored in the case)"""
+    import re as _re
+    m = _re.fullmatch(r"\{tower:(\d+)\}", j["text"])
+    if m:
+        return dict(j, text="".join(G.tower_tokens(int(m.group(1)), "[C]")))
+    return j
+
+
+def _cold(case, classes=("cold_start",)):
     """first calls of a fresh interpreter made concurrently (lazily built tables / memo caches are filled inside the race)"""
     import json
     import os
@@ -222,10 +213,14 @@ def _cold(case):
     import re as _re
     sizes = [len(j["text"]) - 3 for j in case["jobs"] if j["kind"] == "enc" and _re.fullmatch(r"C1C+1", j["text"])]
     scan_lo = max(1, min(sizes) - 2) if sizes and max(sizes) > 150 else 1
-    q = dict(jobs=case["jobs"], threads=case["threads"], rounds=case["rounds"], rotate=case.get("rotate", True),
-             scan_rings=(max(sizes) + 3 if sizes else 0), scan_lo=scan_lo)
-    p = subprocess.run([sys.executable, "-m", "vf.coldstress"], input=json.dumps(q).encode(), stdout=subprocess.PIPE,
-                       stderr=subprocess.PIPE, env=env, timeout=600)
+    xjobs = [_expand(j) for j in case["jobs"]]
+    q = dict(jobs=xjobs, threads=case["threads"], rounds=case["rounds"], rotate=case.get("rotate", True),
+             scan_rings=(max(sizes) + 3 if sizes else 0), scan_lo=scan_lo, warm=bool(case.get("warm")), w_every=case.get("w_every", 1), stall_seconds=45)
+    try:
+        p = subprocess.run([sys.executable, "-m", "vf.coldstress"], input=json.dumps(q).encode(), stdout=subprocess.PIPE,
+                           stderr=subprocess.PIPE, env=env, timeout=500)
+    except subprocess.TimeoutExpired:
+        raise HarnessError("cold-start subprocess exceeded its time budget (inconclusive)")
     if p.returncode != 0:
         raise HarnessError("cold-start subprocess failed: " + p.stderr.decode()[-600:])
     out = json.loads(p.stdout.decode())
@@ -233,7 +228,8 @@ def _cold(case):
         raise HarnessError("cold-start subprocess imported selfies from " + out["file"])
     fail = None
     if out["alive"]:
-        fail = Fail("cold:thread_did_not_finish", jobs=case["jobs"][:3])
+        # no thread completed a call for 45 s although every call takes milliseconds alone: the threads wait for each other
+        fail = Fail("cold:threads_stalled", jobs=case["jobs"][:3], calls_completed=out["calls"], threads_alive=out["alive"])
     elif out["mismatches"]:
         m = out["mismatches"][0]
         fail = Fail("cold:concurrent_differs_from_serial:" + m["job"]["kind"], **m)
@@ -246,18 +242,28 @@ def _cold(case):
         # a race may corrupt a shared table for good, so that the serial run *after* it agrees with the wrong
         # concurrent results: compare with a serial run in this (other) process as well
         import json as _json
-        for k, j in enumerate(case["jobs"]):
-            mine = _alone(j["kind"], j["text"].replace("{v}", "10000"), j.get("flags", {}))
+        for k, j in enumerate(xjobs):
+            if "{tower:" in case["jobs"][k]["text"]:
+                continue    # depends on the interpreter's recursion limit, which differs between this process and the subprocess
+            try:
+                mine = _alone_watched(j["kind"], j["text"].replace("{v}", "10000").replace("{w}", "20000"), j.get("flags", {}))
+            except sched.Stalled as e:
+                raise HarnessError("a serial call in the checking process waits for ever (inside %s): left over from an earlier case" % e.where)
             mine = ["exc", mine[1]] if mine[0] == "exc" else ["ok", _json.loads(_json.dumps(mine[1]))]
-            if "{v}" in j["text"]:
-                mine = _json.loads(_json.dumps(mine).replace("10000", "V"))
+            if "{v}" in j["text"] or "{w}" in j["text"]:
+                mine = _json.loads(_json.dumps(mine).replace("10000", "V").replace("20000", "W"))
             theirs = out["concurrent_distinct"].get(str(k), []) + [out["serial_after"][k]]
             bad = [t for t in theirs if t != mine]
             if bad:
-                fail = Fail("cold:results_differ_from_serial_run_in_another_process:" + j["kind"], job=j, serial=str(mine)[:300],
+                fail = Fail("cold:results_differ_from_serial_run_in_another_process:" + j["kind"], job=case["jobs"][k], serial=str(mine)[:300],
                             after_concurrent_start=str(bad[0])[:300])
                 break
-    return Result(fail, True, ("cold_start", "threads=%d" % case["threads"]), extra=out["calls"],
+    classes = tuple(classes) + ("threads=%d" % case["threads"],)
+    if any("{tower:" in j["text"] for j in case["jobs"]):
+        classes += ("deep_nesting_job",)
+    if any("{w}" in j["text"] for j in case["jobs"]):
+        classes += ("same_new_symbol_in_all_threads",)
+    return Result(fail, True, classes, extra=out["calls"],
                   sample=dict(jobs=case["jobs"][:3], threads=case["threads"], calls=out["calls"]))
 
 
@@ -361,6 +367,16 @@ def gen_cold(ch):
             jobs.append(dict(kind="enc", text="S(" + "C" * n + ")(F)Cl", flags={}))
         else:
             jobs.append(dict(kind="enc", text=ch.pick(ENC_POOL).replace("{u}", "13"), flags=dict(strict=ch.bool(70))))
+    if ch.bool(15):
+        # deep nesting next to ordinary calls (on the unchanged tree a tower of >= ~990 levels raises RecursionError, alone
+        # and concurrently alike: known finding of C08; the comparison is of outcomes)
+        jobs = jobs[:2] + [dict(kind="dec", text="{tower:%d}" % ch.pick([300, 700, 1200, 1800, 2600]), flags={}) for _ in range(ch.int(1, 2))]
+        return dict(kind="cold", jobs=jobs, threads=ch.pick([4, 8]), rounds=ch.pick([2, 5]), rotate=ch.bool(50))
+    if ch.bool(25):
+        # all threads meet the same never-seen symbols at the same call number
+        jobs = jobs[:1] + [dict(kind="dec", text="[{w}C][={w}N][{w}OH1][{w}S]", flags={}),
+                           dict(kind="enc", text="[{w}CH3]C(=O)[{w}O-].[{w}Na+]", flags={})]
+        return dict(kind="cold", jobs=jobs, threads=ch.pick([4, 8]), rounds=ch.pick([100, 200]), rotate=False)
     if ch.bool(40):
         # a stream of ever new bracket atoms (per-call isotope): bounded symbol caches keep evicting
         jobs = jobs[:1] + [dict(kind="enc", text="[{v}CH3]C(=O)[{v}O-].[{v}Na+].[{v}Fe+3]", flags={}),
@@ -373,6 +389,8 @@ def gen_stress(ch):
     jobs = [j for j in gen_jobs(ch) + gen_jobs(ch) if j["kind"] != "enc_ring_fresh"]
     if not jobs:
         jobs = [dict(kind="dec", text=DEC_POOL[0], flags={})]
+    if ch.bool(30):
+        jobs.append(dict(kind="dec", text="{tower:%d}" % ch.pick([700, 1200, 1800]), flags={}))
     return dict(kind="stress", jobs=jobs, threads=ch.pick([8, 16]), calls=ch.pick([100, 300]))
 
 
